@@ -1625,6 +1625,89 @@ func TestGocvReplay(t *testing.T) {
 	}
 }
 `}
+	// text encodings (C18): accepted non-canonical XML / JSON forms re-encode to the canonical document
+	replayers["scenario:C18-text"] = &Replayer{PkgDir: ".", Oracle: "a two-item request message (Create with enumeration, integer, mask and structure attributes; Register of a raw symmetric key) in its canonical JSON and XML form, rewritten with 34 non-canonical spellings the decoders accept (enumerations and masks by number or hex string or in another order, integers as hex strings, a date-time in another zone, a tag by number): each accepted document decodes to a message whose re-encoding is the canonical document, decodes again, re-encodes byte-identically, and has the binary form of the original",
+		Template: `package kmip_test
+
+import (
+	"bytes"
+	"strings"
+	"testing"
+	"time"
+
+	"github.com/ovh/kmip-go"
+	"github.com/ovh/kmip-go/payloads"
+	"github.com/ovh/kmip-go/ttlv"
+)
+
+func TestGocvReplay(t *testing.T) {
+	ts := time.Unix(1577934245, 0)
+	raw := []byte{1, 2, 3, 4, 5, 6, 7, 8}
+	m := &kmip.RequestMessage{Header: kmip.RequestHeader{ProtocolVersion: kmip.V1_4, BatchCount: 2, TimeStamp: &ts, ClientCorrelationValue: "c", BatchErrorContinuationOption: kmip.BatchErrorContinuationOptionStop},
+		BatchItem: []kmip.RequestBatchItem{
+			{Operation: kmip.OperationCreate, UniqueBatchItemID: []byte{1}, RequestPayload: &payloads.CreateRequestPayload{ObjectType: kmip.ObjectTypeSymmetricKey,
+				TemplateAttribute: kmip.TemplateAttribute{Attribute: []kmip.Attribute{
+					{AttributeName: kmip.AttributeNameCryptographicAlgorithm, AttributeValue: kmip.CryptographicAlgorithmAES},
+					{AttributeName: kmip.AttributeNameCryptographicLength, AttributeValue: int32(256)},
+					{AttributeName: kmip.AttributeNameCryptographicUsageMask, AttributeValue: kmip.CryptographicUsageSign | kmip.CryptographicUsageVerify},
+					{AttributeName: kmip.AttributeNameName, AttributeValue: kmip.Name{NameValue: "n", NameType: kmip.NameTypeUninterpretedTextString}},
+				}}}},
+			{Operation: kmip.OperationRegister, RequestPayload: &payloads.RegisterRequestPayload{ObjectType: kmip.ObjectTypeSymmetricKey,
+				Object: &kmip.SymmetricKey{KeyBlock: kmip.KeyBlock{KeyFormatType: kmip.KeyFormatTypeRaw, KeyValue: &kmip.KeyValue{Plain: &kmip.PlainKeyValue{KeyMaterial: kmip.KeyMaterial{Bytes: &raw}}}, CryptographicAlgorithm: kmip.CryptographicAlgorithmAES, CryptographicLength: 64}}}},
+		}}
+	type codec struct {
+		name string
+		enc  func(any) []byte
+		dec  func([]byte, any) error
+	}
+	rew := map[string][][2]string{
+		"json": {
+			{"\"value\": \"Stop\"", "\"value\": \"0x00000002\""}, {"\"value\": \"Stop\"", "\"value\": 2"},
+			{"\"value\": \"Create\"", "\"value\": \"0x00000001\""}, {"\"value\": \"AES\"", "\"value\": \"0x00000003\""}, {"\"value\": \"AES\"", "\"value\": 3"},
+			{"\"value\": 256", "\"value\": \"0x00000100\""}, {"\"value\": 2}", "\"value\": \"0x00000002\"}"},
+			{"\"Sign|Verify\"", "3"}, {"\"Sign|Verify\"", "\"0x00000003\""}, {"\"Sign|Verify\"", "\"Verify|Sign\""}, {"\"Sign|Verify\"", "\"Sign|0x00000002\""}, {"\"Sign|Verify\"", "\"Sign | Verify\""},
+			{"2020-01-02T03:04:05Z", "2020-01-02T05:04:05+02:00"}, {"\"tag\": \"BatchCount\"", "\"tag\": \"0x42000d\""}, {"0102030405060708", "0102030405060708"},
+			{"\"value\": \"SymmetricKey\"", "\"value\": \"0x00000002\""}, {"\"value\": \"Raw\"", "\"value\": 1"}, {"\"value\": \"UninterpretedTextString\"", "\"value\": \"0x00000001\""},
+		},
+		"xml": {
+			{"value=\"Stop\"", "value=\"0x00000002\""}, {"value=\"Stop\"", "value=\"2\""}, {"value=\"Create\"", "value=\"0x00000001\""}, {"value=\"AES\"", "value=\"0x00000003\""}, {"value=\"AES\"", "value=\"3\""},
+			{"value=\"256\"", "value=\"0x00000100\""}, {"value=\"Sign Verify\"", "value=\"3\""}, {"value=\"Sign Verify\"", "value=\"0x00000003\""}, {"value=\"Sign Verify\"", "value=\"Verify Sign\""}, {"value=\"Sign Verify\"", "value=\"Sign 0x00000002\""}, {"value=\"Sign Verify\"", "value=\" Sign   Verify \""},
+			{"2020-01-02T03:04:05Z", "2020-01-02T05:04:05+02:00"}, {"<BatchCount type=\"Integer\" value=\"2\"/>", "<TTLV tag=\"0x42000d\" type=\"Integer\" value=\"2\"/>"},
+			{"value=\"SymmetricKey\"", "value=\"0x00000002\""}, {"value=\"Raw\"", "value=\"1\""}, {"value=\"0102030405060708\"", "value=\"0102030405060708\""},
+		},
+	}
+	for _, c := range []codec{ {"json", ttlv.MarshalJSON, ttlv.UnmarshalJSON}, {"xml", ttlv.MarshalXML, ttlv.UnmarshalXML} } {
+		canon := string(c.enc(m))
+		for _, r := range rew[c.name] {
+			if !strings.Contains(canon, r[0]) {
+				t.Errorf("GOCV-REPRODUCED: {{.Obligation}}: %s: rewrite source %q not in the canonical document", c.name, r[0])
+				continue
+			}
+			doc := strings.ReplaceAll(canon, r[0], r[1])
+			var m1 kmip.RequestMessage
+			if err := c.dec([]byte(doc), &m1); err != nil {
+				t.Logf("%s: %q -> %q rejected: %v", c.name, r[0], r[1], err)
+				continue
+			}
+			e1 := c.enc(&m1)
+			if string(e1) != canon {
+				t.Errorf("GOCV-REPRODUCED: {{.Obligation}}: %s: %q -> %q accepted, but the re-encoding is not the canonical document", c.name, r[0], r[1])
+			}
+			var m2 kmip.RequestMessage
+			if err := c.dec(e1, &m2); err != nil {
+				t.Errorf("GOCV-REPRODUCED: {{.Obligation}}: %s: %q -> %q: re-encoding rejected: %v", c.name, r[0], r[1], err)
+				continue
+			}
+			if e2 := c.enc(&m2); !bytes.Equal(e1, e2) {
+				t.Errorf("GOCV-REPRODUCED: {{.Obligation}}: %s: %q -> %q: second re-encoding differs", c.name, r[0], r[1])
+			}
+			if b1, b2 := ttlv.MarshalTTLV(&m1), ttlv.MarshalTTLV(m); !bytes.Equal(b1, b2) {
+				t.Errorf("GOCV-REPRODUCED: {{.Obligation}}: %s: %q -> %q: binary form of the decoded message differs from the original", c.name, r[0], r[1])
+			}
+		}
+	}
+}
+`}
 	// big integers (C18 / C01): the two's-complement conversions run through math/big and carry loops whose
 	// functional specification is not discharged; this bounded check stands in for them
 	replayers["scenario:C18-bigint"] = &Replayer{PkgDir: "ttlv", Oracle: "every accepted binary Big Integer item from a grid of value patterns (lengths 8, 16 and 24 bytes; all-zero, all-ones, sign-boundary and redundant sign-extension patterns; 2000 pseudo-random values with a fixed seed) decodes, re-encodes, decodes again to the same number, and the second re-encoding is byte-identical to the first; 1206 numbers around the powers of two up to 2^200 with both signs are written as well-formed items whose bytes denote the number in two's complement",
